@@ -1,11 +1,13 @@
 import Poulpy.Driver.Util
 import Poulpy.Model.Core.Ks
+import Poulpy.Model.Core.Pack
+import Poulpy.Model.Core.KsMat
 
 /-!
 Model driver for the key-switching family — command word `ks`.
 
 Request:  `id ks op=<op> big=<64|128> n=N bin=.. bkey=.. bout=.. sout=<res limbs> rin=.. rout=.. dsize=..
-           [skip=..] [idx=..] [nlin=..] [nlout=..] [dft0=<v>] keys=<p:GGLWE@p:GGLWE…> a=<ct>`
+           [skip=..] [idx=..] [nlin=..] [nlout=..] [dft0=<v>] [lgap=..] keys=<p:GGLWE@p:GGLWE…> a=<ct>`
 Answer:   `id ok <ct>` | `id panic:<class>` | `id err:<kind>`.
 
 Canonical text forms (same as `pvh ks`): polynomial = coefficients joined by `,`; column = limbs
@@ -65,6 +67,26 @@ def handle (ts : List String) : String :=
   let lw (o : Outcome Lwe) : String := showOut o (fun l => showCol l.data)
   -- previous content of the un-zeroed `res_dft` scratch buffer of the fused forms: every coefficient `dft0=<v>`
   let dv := kvInt ts "dft0"
+  -- `a=<slot:ct@slot:ct…>` for the packing operations
+  let slotCts : SlotMap :=
+    if op == "pack" || op == "packer" then
+      let txt := (kv ts "a").getD "-"
+      if txt == "-" then [] else (txt.splitOn "@").filterMap (fun part =>
+        match part.splitOn ":" with
+        | [j, body] => some (nat! j, mkCt bin n (parseCt body))
+        | _ => none)
+    else []
+  -- `a=<GGLWE>` or `a=<p>:<GGLWE>` for the matrix operations
+  let isMat := op == "gglwe_ks" || op == "gglwe_ks_assign" || op == "atk_auto" || op == "atk_auto_assign"
+  let matTxt := if isMat then (kv ts "a").getD "-" else "-"
+  let matParts := matTxt.splitOn ":"
+  let matP : Int := if matParts.length == 2 then int! (matParts.getD 0 "") else 0
+  let matBody := matParts.getLast?.getD "-"
+  let matCts : List Ct := if isMat && matBody != "-" then (matBody.splitOn "/").map (fun t => mkCt bin n (parseCt t)) else []
+  let r0 := if op == "atk_auto" || op == "atk_auto_assign" then rin else kvNat ts "r0"
+  let matA : Mat := { base2k := bin, dsize := kvNat ts "adsize", dnum := matCts.length / (max r0 1), rankIn := r0,
+                      rankOut := (matCts.getD 0 (mkCt bin n [])).rank, cts := matCts }
+  let showMat (l : List Ct) : String := "/".intercalate (l.map (fun c => showCt c.cols))
   let dft0 : Buf := { zeroBuf n (rout + 1) key.size with
     data := List.replicate (rout + 1) (List.replicate key.size (List.replicate n dv)) }
   match op with
@@ -80,6 +102,15 @@ def handle (ts : List String) : String :=
   | "auto_subneg_assign" => ct (automorphismFused .subNegate big128 dft0 a.base2k a.size a.rank a key)
   | "trace" => ct (trace big128 bkey keys skip bout sout a)
   | "trace_assign" => ct (traceAssign big128 bkey keys skip a)
+  | "gglwe_ks" => showOut (gglweKeyswitch big128 bout sout (kvNat ts "r0") rout (kvNat ts "rdnum") (kvNat ts "adsize") matA key) showMat
+  | "gglwe_ks_assign" => showOut (gglweKeyswitchAssign big128 matA key) showMat
+  | "atk_auto" => showOut (atkAutomorphism big128 n bout sout (kvNat ts "rdnum") (kvNat ts "adsize") matP matA key)
+      (fun r => toString r.1 ++ ":" ++ showMat r.2)
+  | "atk_auto_assign" => showOut (atkAutomorphismAssign big128 n matP matA key) (fun r => toString r.1 ++ ":" ++ showMat r.2)
+  | "pack" => ct (pack big128 n bkey keys bout sout slotCts (kvNat ts "lgap"))
+  | "packer" =>
+    ct (packerRun big128 n keys bout sout rin (kvNat ts "lgap") (fun k => SlotMap.get slotCts k)
+          (mkCt bout n (List.replicate (rin + 1) (zeroCol n sout))))
   | "lwe_ks" => lw (lweKeyswitch big128 n bout sout nlout lwe key)
   | "glwe_to_lwe" => lw (lweFromGlwe big128 bout sout nlout a idx key)
   | "extract" => lw (sampleExtract bout sout nlout a)
